@@ -73,6 +73,17 @@ func unitsFor(prop, tier string) []Unit {
 			us = append(us, Unit{Prop: prop, Tier: tier, Kind: "procx", Index: i, Name: fmt.Sprintf("procx/%s/part-%d-of-%d", prop, i, n)})
 		}
 	}
+	switch prop {
+	case "C16":
+		us = append(us, Unit{Prop: prop, Tier: tier, Kind: "appx", Index: 0, Name: "appx/reload-histories (real binary, SIGUSR1)"})
+	case "C17":
+		for i := 0; i < 8; i++ {
+			us = append(us, Unit{Prop: prop, Tier: tier, Kind: "appx", Index: i, Name: fmt.Sprintf("appx/field-edits-%d-of-8 (real binary, SIGUSR1)", i)})
+		}
+		us = append(us, Unit{Prop: prop, Tier: tier, Kind: "appx", Index: 0, Name: "appx/reload-histories (real binary, SIGUSR1)"})
+	case "C11":
+		us = append(us, Unit{Prop: prop, Tier: tier, Kind: "appx", Index: 0, Name: "appx/signals (real binary, SIGINT / SIGTERM)"})
+	}
 	if prop == "C14" {
 		for i, c := range httpxCombos() {
 			us = append(us, Unit{Prop: prop, Tier: tier, Kind: "httpx", Index: i, Name: fmt.Sprintf("httpx/profiling=%v/%s", c.profiling, c.history)})
@@ -156,6 +167,8 @@ func runUnit(u Unit) UnitResult {
 		return runCrashUnit(u)
 	case "procx":
 		return runProcxUnit(u)
+	case "appx":
+		return runAppxUnit(u)
 	case "httpx":
 		return runHTTPXUnit(u)
 	case "defx":
